@@ -215,6 +215,12 @@ func (i *interpreter) inRepoCode(fr *frame) bool {
 }
 
 func (i *interpreter) externalGlobal(g *ssa.Global) value {
+	if f, ok := externalGlobalFns[g.String()]; ok {
+		cell := f(i)
+		p := &cell
+		i.globals[g] = p
+		return p
+	}
 	if v, ok := externalGlobals[g.String()]; ok {
 		cell := v
 		p := &cell
